@@ -99,7 +99,7 @@ def fromZnxAvx (a : List Int) : Outcome (List Nat) :=
 
 /-- one lane of `reim_to_znx_i64_bnd63_avx2_fma(divisor = 2^K)` -/
 def toLaneAvx (K : Nat) (a : Nat) : Int :=
-  let sgn := decide (2 ^ 63 ≤ a)
+  let sgn := decide ((a / 2 ^ 63) % 2 = 1)
   let a' := add a (pack sgn ((1022 + K) * 2 ^ 52))
   let ea : Nat := (a' / 2 ^ 52) % 2048
   let mant : Nat := a' % 2 ^ 52 + 2 ^ 52
